@@ -58,7 +58,7 @@ def run(tier, replay):
         c["outside" if outside else "inside_or_edge"] += 1
         c["released"] += int(r["rel"])
         c["outside_released"] += int(r["rel"] and outside)
-    if not replay:
+    if not replay and not R.violations:
         need = 22  # distinct port x asker cells of the matrix
         if len(cells) < need or any(c["outside"] == 0 or c["inside_or_edge"] == 0 for c in cells.values()):
             lib.tool_error(f"matrix not covered: {len(cells)} cells")
